@@ -117,6 +117,10 @@ class Goal:
         return self.target
 
 
+class InjectedBase(BaseException):
+    pass
+
+
 class Truthy:
     """an object that converts to True (what numpy.bool_ looks like to a strict bool extraction)"""
     def __bool__(self):
@@ -153,6 +157,12 @@ def run_planner(ox, case, as_false, fault_call=None):
             k = fault["kind"]
             if k == "raise":
                 raise RuntimeError("validity callback failed (injected)")
+            if k == "raise_kbd":
+                raise KeyboardInterrupt()
+            if k == "raise_base":
+                raise InjectedBase("validity callback failed (injected, not an Exception subclass)")
+            if k == "raise_sysexit":
+                raise SystemExit(3)
             if k == "none":
                 return None
             if k == "nonbool":
@@ -220,7 +230,33 @@ def planners(inp, outp, as_false, kth):
             continue      # the core ran out of time on this world: the number of completed iterations is time-dependent, nothing to compare
         os.dup2(devnull, 1); os.dup2(devnull, 2)       # the core prints progress, the glue prints tracebacks
         try:
-            r = run_planner(ox, case, as_false, kth)
+            fk = ((case["world"]["py"].get("fault") or {}).get("kind"))
+            if fk == "raise_sysexit" and not as_false:
+                # a callback that raises SystemExit may take the whole process down: run it in a child
+                rd, wr = os.pipe()
+                pid = os.fork()
+                if pid == 0:
+                    os.close(rd)
+                    try:
+                        rr = run_planner(ox, case, as_false, kth)
+                        os.write(wr, json.dumps(rr).encode())
+                    finally:
+                        os._exit(0)
+                os.close(wr)
+                buf = b""
+                while True:
+                    chunk = os.read(rd, 65536)
+                    if not chunk:
+                        break
+                    buf += chunk
+                os.close(rd)
+                _, status = os.waitpid(pid, 0)
+                if buf:
+                    r = json.loads(buf.decode())
+                else:
+                    r = {"id": case["id"], "planner": case["world"]["py"]["planner"], "process_exit": os.waitstatus_to_exitcode(status)}
+            else:
+                r = run_planner(ox, case, as_false, kth)
         finally:
             os.dup2(saved[0], 1); os.dup2(saved[1], 2)
         res.append(r)
@@ -270,18 +306,28 @@ def wrappers(inp, outp):
             elif k == "dist":
                 kind = pyw["kind"]
                 a, bb = [[f(x) for x in s] for s in pyw["states"]]
+                # d(x, x) is asked with ONE Python object passed twice (what user code does), other pairs with two objects
+                same = [bits(x) for x in a] == [bits(x) for x in bb]
                 if kind == "rv":
                     sp = b.RealVectorStateSpace(dimension=len(a), bounds=None)
-                    d = sp.distance(b.RealVectorState(a), b.RealVectorState(bb))
+                    sa = b.RealVectorState(a)
+                    sb = sa if same else b.RealVectorState(bb)
                 elif kind == "so2":
                     sp = b.SO2StateSpace()
                     # the wrapper constructor canonicalises: compare through the same constructor on both sides
-                    d = sp.distance(b.SO2State(a[0]), b.SO2State(bb[0]))
+                    sa = b.SO2State(a[0])
+                    sb = sa if same else b.SO2State(bb[0])
                     out["canon"] = [hx(b.SO2State(a[0]).value), hx(b.SO2State(bb[0]).value)]
                 else:
                     sp = b.SO3StateSpace()
-                    d = sp.distance(b.SO3State(*a), b.SO3State(*bb))
+                    sa = b.SO3State(*a)
+                    sb = sa if same else b.SO3State(*bb)
+                d = sp.distance(sa, sb)
                 out["d"] = hx(d)
+                # and the answer must not depend on object identity
+                d2 = sp.distance(sa, type(sa)(*([a] if kind == "rv" else a))) if same else d
+                if hx(d2) != hx(d):
+                    out["d_identity_dependent"] = [hx(d), hx(d2)]
         except ValueError as e:
             out["ok"] = False
             out["error"] = "ValueError"
